@@ -118,6 +118,30 @@ fi
 NLEM="$(grep -cE '^(Lemma|Theorem) gen_' "$EQUIV")"
 NPA="$(grep -cE '^Print Assumptions gen_' "$EQUIV")"
 [ "$NLEM" -ge 1 ] || fail "no lemma gen_* in coq/GenEquiv/$PID.v"
+# every translated function must be the subject of a lemma gen_<name>_* or be called (transitively) by one that is
+UNCOV="$(python3 - "$TMP/Gen.v" "$EQUIV" <<'EOF3'
+import re, sys
+gen = open(sys.argv[1]).read()
+eq = open(sys.argv[2]).read()
+defs = {}
+for m in re.finditer(r"^(?:Definition|Fixpoint) (\w+)((?:.|\n)*?)\n\n", gen + "\n\n", re.M):
+    name, body = m.group(1), m.group(2)
+    if name.startswith(("zero_", "err_")) or ":=" not in body:
+        continue
+    if re.match(r"\s*:\s*\w+\s*:=\s*(Build_|\d)", body):
+        continue
+    defs[name] = body
+roots = set(n for n in defs if re.search(r"^(?:Lemma|Theorem) gen_%s(?:_\w+)? " % re.escape(n), eq, re.M) or re.search(r"^(?:Lemma|Theorem) gen_%s(?:_\w+)?$" % re.escape(n), eq, re.M))
+seen, todo = set(roots), list(roots)
+while todo:
+    n = todo.pop()
+    for k in defs:
+        if k not in seen and re.search(r"\b%s\b" % re.escape(k), defs[n]):
+            seen.add(k); todo.append(k)
+print(" ".join(sorted(set(defs) - seen)))
+EOF3
+)"
+[ -z "$UNCOV" ] || fail "translated functions without an equivalence lemma (gen_<name>_*) in coq/GenEquiv/$PID.v: $UNCOV"
 [ "$NLEM" = "$NPA" ] || fail "$NLEM lemmas gen_* but $NPA Print Assumptions in coq/GenEquiv/$PID.v"
 
 if [ -f "$DIR/.ok" ] && [ "$(cat "$DIR/.ok")" = "$FP" ]; then
